@@ -287,7 +287,13 @@ C05_Trans ==
      [name |-> "tbv", stmts |-> <<SRet(PBin("+", PVar("value"), PBin("+", PVar("lineNumber"), PBin("+", PStr(<<58>>), PVar("columnNumber")))))>>],
      \* a return inside a loop ends the transform, not just the loop
      [name |-> "tlr", stmts |-> <<[k |-> "loop", body |-> <<SIf(PBin("<", PVar("matchLength"), PNum(2)), <<SRet(PStr(<<83>>))>>, <<>>), [k |-> "brk"]>>],
-                                  SRet(PStr(<<76>>))>>] >>
+                                  SRet(PStr(<<76>>))>>],
+     \* a loop left by break inside another loop: only the inner loop ends
+     [name |-> "tnl", stmts |-> <<SSet("s", PStr(<<>>)), SSet("i", PNum(0)),
+                                  [k |-> "loop", body |-> <<SSet("i", PBin("+", PVar("i"), PNum(1))), SIf(PBin("<", PNum(2), PVar("i")), <<[k |-> "brk"]>>, <<>>),
+                                                            [k |-> "loop", body |-> <<SSet("s", PBin("+", PVar("s"), PVar("match"))), [k |-> "brk"]>>],
+                                                            SSet("s", PBin("+", PVar("s"), PStr(<<124>>)))>>],
+                                  SRet(PVar("s"))>>] >>
 
 C05_Items ==
   { WStr(<<60>>), WStr(<<>>), WStr(<<ba, bb>>), WName("x"), WName("y"), WName("nope"),
